@@ -37,7 +37,8 @@ class Laplace(Distribution):
     def logpdf(self, x):
         if isinstance(x, (float,int)):
             x = np.array([x])
-        return self.dim*(np.log(0.5/self.scale)) - np.linalg.norm(x-self.location,1)/self.scale
+        # one sum over the broadcast expression, so that scalar and vector scales are treated alike
+        return np.sum(np.log(0.5/self.scale) - np.abs(x-self.location)/self.scale)
 
     def _sample(self,N=1,rng=None):
         if rng is not None:
